@@ -21,6 +21,28 @@ PROPS = {
     },
 }
 
+PROPS["C18"] = {
+    "level": "proof",
+    "verus": {
+        "timestamp": ["duration_to_timestamp_delta", "timestamp_delta_to_duration", "timestamp_from_system_time",
+                      "system_time_from_timestamp", "Timestamp::from_system_time", "Timestamp::to_system_time",
+                      "lemma_resolution", "lemma_idempotent", "lemma_ticks_roundtrip", "lemma_monotonic",
+                      "lemma_back_monotonic", "lemma_saturates"],
+    },
+    "assumptions": [
+        "SystemTime is viewed as an integer number of nanoseconds from the Unix epoch inside an uninterpreted platform range [ST_MIN, ST_MAX] containing 0",
+        "the 'within 100 ns' lemma is proved under platform_covers_window(): the platform's SystemTime can represent 1601-01-01 .. the last 64-bit tick (true for 64-bit Linux time_t)",
+    ],
+}
+
+PROPS["C07"] = {
+    "level": "proof",
+    "verus": {"column": ["Column::is_valid_value"]},
+    "assumptions": [
+        "Category::validate is an uninterpreted predicate cat_ok(category, string) (trusted contract): the category grammars themselves are NOT verified",
+    ],
+}
+
 # assumptions that hold for every check of this family
 COMMON_ASSUMPTIONS = [
     "Verus 0.2026.09.13 (Z3 bundled) and Kani 0.68 / CBMC 6.11 are sound for the constructs used",
